@@ -188,6 +188,23 @@ Section Inbound.
     match s with Dead => True | Live buf ctr => step buf ctr = NeedMore end.
 End Inbound.
 
+(* specification of "everything delivered was authenticated": the consumed part of the
+   byte stream splits into complete frames (2-byte prefix h, body c of the announced
+   length + tag) each of which the decrypt function opened with the nonce of its
+   position's counter, yielding exactly the delivered plaintexts, in order *)
+Fixpoint authentic (T : nat) (opn : bytes -> bytes -> bytes -> option bytes)
+         (ctr : N) (frs : list (bytes * bytes)) (outs : list bytes) : Prop :=
+  match frs, outs with
+  | [], [] => True
+  | (h, c) :: fr, p :: os =>
+      length h = 2 /\ length c = N.to_nat (le_dec h) + T /\
+      (ctr < ctr_limit)%N /\ opn (nonce_of ctr) h c = Some p /\
+      authentic T opn (ctr + 1)%N fr os
+  | _, _ => False
+  end.
+Definition flat (frs : list (bytes * bytes)) : bytes :=
+  concat (map (fun hc => fst hc ++ snd hc) frs).
+
 (* the accessory's side of the stream: frame i sealed with counter ctr + i *)
 Definition seal_frame (A : aead) (key : bytes) (ctr : N) (p : bytes) : bytes :=
   len16 p ++ seal A key (nonce_of ctr) (len16 p) p.
